@@ -155,6 +155,18 @@ func writeOrderFacts(sb *strings.Builder) {
 		}
 		return false
 	}
+	// the background loops keep their handshake state in locals (`gcDone`, timers): none of them is declared again in a branch
+	var sh []string
+	for _, fn := range []string{"Store.run", "Index.garbageCollector", "primaryGC.run", "Store.Close", "Index.Close", "MultihashPrimary.Close", "primaryGC.close"} {
+		if fi := funcs[fn]; fi != nil {
+			for _, v := range fi.shadows {
+				sh = append(sh, fn+":"+v)
+			}
+		} else {
+			sh = append(sh, fn+":<missing>")
+		}
+	}
+	fmt.Fprintf(sb, "def lifecycleShadowedLocals : List String := %s\n", q(sh))
 	fmt.Fprintf(sb, "def runClosesClosed : Bool := %v\n", has("Store.run", "Store.closed"))
 	fmt.Fprintf(sb, "def igcClosesDone : Bool := %v\n", has("Index.garbageCollector", "Index.gcDone"))
 	fmt.Fprintf(sb, "def pgcClosesDone : Bool := %v\n\n", has("primaryGC.run", "primaryGC.done"))
